@@ -25,7 +25,7 @@ def sh(cmd, cwd=None, timeout=1800):
 meta = {"property": prop, "seed": fid, "round": rnd, "confirmed_in": wt}
 if not os.path.isdir(wt):
     sh("git -C /repo worktree add -q %s HEAD" % wt)
-sh("git checkout -q -- . && git clean -fdq", cwd=wt)
+sh("git reset -q --hard && git clean -fdq", cwd=wt)
 sh("git checkout -q --detach %s" % sh("git -C /repo rev-parse HEAD")[1].strip(), cwd=wt)      # the scratch tree follows /repo's HEAD
 rc, out = sh("git apply %s" % patch, cwd=wt)
 if rc != 0:
@@ -36,7 +36,7 @@ rc_t, out_t = sh("cargo test --offline 2>&1 | grep -E '^test result' | head -1",
 meta["tests_with_patch"] = out_t.strip()
 rc_d1, out_d1 = sh("bash %s %s" % (demo, wt))
 meta["demo_with_patch_exit"] = rc_d1
-sh("git checkout -q -- . && git clean -fdq", cwd=wt)
+sh("git reset -q --hard && git clean -fdq", cwd=wt)
 rc_d0, out_d0 = sh("bash %s %s" % (demo, wt))
 meta["demo_without_patch_exit"] = rc_d0
 meta["demo_output_with_patch"] = out_d1[-600:]
